@@ -485,6 +485,7 @@ class HashRule(ABC):
                         first_level=first_level,
                         ref_is_global_table=False,
                         ref_resolver=resolver,
+                        path=symbol_part + "." + parts[i],
                     )
                 )
                 return
@@ -554,6 +555,9 @@ class UndefinedSymbolHashRule(HashRule):
     ref_resolver = None  # type: Optional[Callable]
     """If set, looks the base reference up again (the name it was reached through may be re-bound)"""
 
+    path = None  # type: Optional[str]
+    """The dotted path that failed to resolve, if the symbol is an attribute of another object"""
+
     def __init__(
         self,
         ref: object,
@@ -562,10 +566,16 @@ class UndefinedSymbolHashRule(HashRule):
         first_level: bool,
         ref_is_global_table: bool,
         ref_resolver: Optional[Callable] = None,
+        path: Optional[str] = None,
     ):
+        # The rule is identified by the whole dotted path that failed to resolve: the same
+        # attribute name may be missing on several objects (`a.x` and `b.x`), and each of them
+        # has to be watched. `symbol` stays the attribute that is looked up on `ref`.
         # noinspection PyUnresolvedReferences
         super().__init__(
-            key="UndefinedSymbol;{};{}".format(parent_symbol, symbol),
+            key="UndefinedSymbol;{};{}".format(
+                parent_symbol, path if path is not None else symbol
+            ),
             parent_symbol=parent_symbol,
             symbol=symbol,
             first_level=first_level,
@@ -573,6 +583,7 @@ class UndefinedSymbolHashRule(HashRule):
         self.ref = ref
         self.ref_is_global_table = ref_is_global_table
         self.ref_resolver = ref_resolver
+        self.path = path
 
     def clone(self) -> HashRule:
         return UndefinedSymbolHashRule(
@@ -582,6 +593,7 @@ class UndefinedSymbolHashRule(HashRule):
             self.first_level,
             self.ref_is_global_table,
             self.ref_resolver,
+            self.path,
         )
 
     def collect_transitive_dependencies(
